@@ -33,6 +33,11 @@ func (g G) chance(label string, pct int) bool {
 	return rapid.IntRange(0, 99).Draw(g.t, label) >= 100-pct
 }
 
+// pick2ms draws a short duration (in ns) for request deadlines: from a microsecond to a few seconds.
+func (g G) pick2ms(label string) int64 {
+	return []int64{1000, 1000000, 50000000, 1000000000, 5000000000}[g.intn(label, 5)]
+}
+
 func (g G) pick(label string, opts ...string) string {
 	return opts[g.intn(label, len(opts))]
 }
@@ -368,6 +373,15 @@ func (g G) drawFault(label string, pct int) string {
 	return g.pick(label+".kind", "err", "err", "err", "nil_record", "key_without_cert", "cert_without_key", "empty_cert", "partial_err", "err_canceled", "err_notfound", "err_deadline", "err_eof")
 }
 
+// drawFaultSigning: like drawFault, plus key records that look complete and only fail when the signature is made ("signing
+// failure" of C01; not among the kinds C10 names, so not used there).
+func (g G) drawFaultSigning(label string, pct int) string {
+	if !g.chance(label+".on", pct) {
+		return ""
+	}
+	return g.pick(label+".kind", "err", "err", "nil_record", "key_without_cert", "cert_without_key", "empty_cert", "partial_err", "cert_mismatch", "cert_truncated", "cert_mismatch", "err_canceled")
+}
+
 // boundaryAdvance draws a clock advance with point masses on interesting instants.
 func (g G) drawAdvance(label string, anchors []int64) int64 {
 	switch g.weighted(label+".kind", 30, 25, 20, 15, 10) {
@@ -397,6 +411,9 @@ func (g G) planC01() *Plan {
 	o := worldOpts{maxSPs: 3, maxUsers: 3, maxReplicas: 2, hardPct: 10, parkVariety: true, customAttrs: true}
 	p := &Plan{Format: 1, Property: "C01", Mode: "serial", Family: "callback-histories"}
 	p.World = g.drawWorld(o)
+	if g.chance("algbad", 6) {
+		p.World.IDP.SigAlg = g.pick("algbadv", "", "http://www.w3.org/2000/09/xmldsig#dsa-sha1", "urn:example:unusable")
+	}
 	// some sessions exist before the run (records the SSO endpoint did not persist itself)
 	npre := g.intn("npre", 3)
 	for i := 0; i < npre; i++ {
@@ -432,8 +449,11 @@ func (g G) planC01() *Plan {
 			p.Steps = append(p.Steps, Step{K: "send", Msg: g.drawSSO(lab+".sso", &p.World, g.intn(lab+".sp", len(p.World.SPs)))})
 		case 1:
 			m := &MsgSpec{Kind: "callback", Session: g.intn(lab+".sess", sessRange), Replica: g.intn(lab+".rep", 2),
-				IDMode:  g.pick(lab+".idmode", "session", "session", "session", "session", "unknown", "empty", "huge", "literal"),
+				IDMode:  g.pick(lab+".idmode", "session", "session", "session", "session", "unknown", "empty", "huge", "literal", "session-variant", "session-variant"),
 				IDPlace: g.pick(lab+".place", "query", "query", "form", "both", "form-other-query")}
+			if m.IDMode == "session-variant" {
+				m.IDLit = g.pick(lab+".idvar", "pct-char", "pct-dash", "upper", "trailing-space", "leading-space", "trailing-nul", "plus-for-dash", "double-pct", "trailing-slash", "prefix-only")
+			}
 			if m.IDMode == "literal" {
 				m.IDLit = g.pick(lab+".idlit", "ar0-", "ar0-000000000000", " ", "%00", "ar0-000000000000&id=x", "../ar0", "ar1-x' OR '1'='1")
 			}
@@ -442,14 +462,14 @@ func (g G) planC01() *Plan {
 			if g.chance(lab+".race", 50) {
 				if g.chance(lab+".before", 50) {
 					p.Steps = append(p.Steps, Step{K: "mutate", Mut: "complete", A: m.Session, B: g.intn(lab+".user", 3)})
-					p.Steps = append(p.Steps, Step{K: "resume", Pick: 99, Fault: g.drawFault(lab+".f1", fp)})
+					p.Steps = append(p.Steps, Step{K: "resume", Pick: 99, Fault: g.drawFaultSigning(lab+".f1", fp)})
 				} else {
-					p.Steps = append(p.Steps, Step{K: "resume", Pick: 99, Fault: g.drawFault(lab+".f1", fp)})
+					p.Steps = append(p.Steps, Step{K: "resume", Pick: 99, Fault: g.drawFaultSigning(lab+".f1", fp)})
 					p.Steps = append(p.Steps, Step{K: "mutate", Mut: "complete", A: m.Session, B: g.intn(lab+".user", 3)})
 				}
 			}
 		case 2:
-			p.Steps = append(p.Steps, Step{K: "resume", Pick: g.intn(lab+".pick", 8), Fault: g.drawFault(lab+".f", fp)})
+			p.Steps = append(p.Steps, Step{K: "resume", Pick: g.intn(lab+".pick", 8), Fault: g.drawFaultSigning(lab+".f", fp)})
 		case 3:
 			p.Steps = append(p.Steps, Step{K: "mutate", Mut: "complete", A: g.intn(lab+".sess", sessRange), B: g.intn(lab+".user", 3)})
 		case 4:
